@@ -678,10 +678,31 @@ def check_ble_advertisement(res: Result, counter: list[int]) -> None:
                                     {"bytes": m.SerializeToString().hex()})
 
 
+def instantiate_defaults(res: Result) -> int:
+    """An application may construct any model class (placeholders, defaults) before the first message arrives: do so for every
+    dataclass of the module, base classes first, so that conversion cannot depend on which class was instantiated first."""
+    from aioesphomeapi import model
+
+    classes = [c for c in vars(model).values() if isinstance(c, type) and dataclasses.is_dataclass(c) and c.__module__ == model.__name__]
+    classes.sort(key=lambda c: len(c.__mro__))
+    n = 0
+    for c in classes:
+        req = [f for f in dataclasses.fields(c) if f.default is dataclasses.MISSING and f.default_factory is dataclasses.MISSING]
+        if req:
+            continue
+        n += 1
+        try:
+            c()
+        except Exception:  # noqa: BLE001
+            pass  # default-constructibility is not part of the property (the GATT classes need a two-element uuid)
+    return n
+
+
 def run(tier: str, seed: int) -> Result:
     env.load()
     res = Result("C14", "exploration")
     counter = [0]
+    counter[0] += instantiate_defaults(res)
     enum_pairing = check_enums(res, counter)
     pairs = check_classes(res, counter)
     structural = counter[0]
